@@ -1378,7 +1378,8 @@ def check(prop, tier):
             elif f.get('kind') == 'bounded-scenario':
                 # the failing scenario is itself the concrete input, replayed on the real code
                 scen = f.get('fn') if (f.get('fn') or '').endswith('.rs') else None
-                witness = {'kind': 'concrete scenario failing on the real code', 'tests': [f.get('key')], 'cmd': 'tool/rundemo.sh %s' % scen if scen else 'tool/witness.py %s' % prop}
+                witness = {'kind': 'concrete scenario failing on the real code', 'tests': [{'scenario': scen, 'test': (f.get('key') or '').replace('bounded:', ''), 'output': (f.get('rendered') or '')[:1500]}] if scen else [],
+                           'cmd': 'tool/rundemo.sh %s' % scen if scen else 'tool/witness.py %s' % prop}
             json.dump({'property': prop, 'failed_obligation': f.get('key'), 'unit': f.get('unit'), 'function': f.get('fn'),
                        'kind': f.get('kind'), 'verifier_message': f.get('message'), 'source': f.get('src'),
                        'spans': f.get('spans'), 'verifier_output': f.get('rendered'), 'witness': witness,
